@@ -14,7 +14,7 @@ RULE = ("Generated trees as in C04 plus float timestamps, with every choice of m
         "[tree] and [variant-*] sections of the same file. Metamorphic part: only the compatibility sections are kept and "
         "loaded as a pre-productmd file; name, version, arch, timestamp, main variant and its packages/repository must "
         "match the description. Non-trivial = >= 2 top-level variants or explicit main variant or src tree or float "
-        "timestamp; distinct = SHA-1 of the description. The same object is dumped again with other choices of main variant: each file follows its own request only.")
+        "timestamp; distinct = SHA-1 of the description. The same object is dumped again with other choices of main variant: each file follows its own request only. [general] of a tree that was changed after its first dump (one top-level variant replaced, same count) is compared with the reference of the changed description.")
 ASSUMPTIONS = ["stdlib configparser.RawConfigParser is a correct, independent INI reader",
                "family names that trigger the documented RHEL/Fedora/CentOS heuristics and versions containing '-'/'_' are kept out of the metamorphic part only"]
 FLOORS = {"general": 400, "general:src-tree": 60, "general:explicit-main": 100, "general:float-timestamp": 60, "legacy-view": 150}
